@@ -319,7 +319,15 @@ def call_clause(interp, fn, kwargs):
   if has_var_kw:
     for k, v in kwargs.items():
       call_kw.setdefault(k, v)
-  return interp.call_function(f, args, call_kw, spec_mode=True)
+  try:
+    return interp.call_function(f, args, call_kw, spec_mode=True)
+  except I.PyRaise as e:
+    # same rule as _guarded_clause: the clause does not fit the shape of the
+    # values this tree produces -> undecided for this tree, not an engine crash
+    if issubclass(e.exc.cls, (AttributeError, KeyError, TypeError, IndexError)):
+      raise I.Unsupported(f'clause {getattr(f, "__name__", "?")} cannot be evaluated on this tree: '
+                          f'{e.exc.cls.__name__}{e.exc.args!r}')
+    raise
 
 
 def _rename_self(kwargs):
